@@ -6,7 +6,7 @@ import itertools
 import random
 import time
 
-from . import common, e1, kani_runner
+from . import common, e1, kani_runner, e3_extras
 
 PID = "C10"
 SPECS = ["{:?}", "{:8?}", "{:<6?}", "{:*^9?}", "{:+?}", "{:.2?}", "{:x?}", "{:08?}", "{:-?}", "{:>5.1?}"]
@@ -184,13 +184,15 @@ def run(tier):
             continue
         seen.add(p.sig)
         progs.append(p)
+    out = common.Outcome(PID)
+    extra = e3_extras.summary(e3_extras.c10_transparent(out))
     return e1.finish(
-        PID, tier, progs, t0,
+        PID, tier, progs, t0, outcome=out, extra=extra,
         rule="one Kani harness per (shape, set of ignored fields, transparent field, concrete format spec); all field payloads and the variant selector are symbolic; the bytes "
              "written by the derive_ex Debug impl must equal those of a same-named std-derived twin with the ignored fields deleted (or of the transparent field alone); "
              "the field type echoes the formatter flags it receives; distinct by shape|ignored|transparent|spec|entry",
         bounds="shapes %s; <=3 fields; format specs %s (and {:#?} on field-less shapes only); sink 64 bytes (unwind 66)" % (sorted(SHAPES), SPECS),
         outside="`{:#?}` / any option set with the alternate flag on shapes with fields: PadAdapter does not finish under CBMC (measured: 1-field struct undecided after 900 s); "
-                "width/precision values other than the listed ones; rejection of two transparent fields (decided by C04's Debug builder paths: the error path)",
+                "width/precision values other than the listed ones; the rejection of two transparent fields is decided on the macro's MIR (E3 obligation build_debug_expr: Err <=> >=2 transparent among 0..3 fields)",
         functions=["Debug::fmt generated by derive_ex for each program"],
         harness_timeout="900s", batch=64)
